@@ -811,20 +811,36 @@ vh_run(const VhTok* tape, size_t n, VhReport* rep)
         else
             cap = 512 + b % 3585; // ..4096
         ti = 1;
-        // the origin of the (virtual) clock is arbitrary: often just before a full second, so that code
-        // which does arithmetic on timespecs meets the carry
+    } else if (n) {
+        // no explicit CFG: the capacity comes from the first token all the same (it is executed as an
+        // operation too), so that generated cases cover the capacities and not just the default
+        uint64_t h = vh_mix64(tape[0].kind * 7919u + tape[0].a * 131u + tape[0].b);
+        unsigned m = (unsigned)(h % 8), b = (unsigned)(h >> 16) & 0xffff;
+        if (m < 5)
+            cap = 8 + b % 57;
+        else if (m == 5)
+            cap = 2 + b % 7;
+        else if (m == 6)
+            cap = 64 + b % 448;
+        else
+            cap = 512 + b % 3585;
+    }
+    // the origin of the (virtual) clock is arbitrary: often just before a full second, so that code which
+    // does arithmetic on timespecs meets the carry
+    if (n) {
+        // (from the first token whatever its kind, so that most cases have one)
         static const uint64_t before[4] = { 0, 500000, 1500000, 1990000 };
-        unsigned o = (tape[0].a >> 3) % 8;
+        unsigned o = (unsigned)(vh_mix64(tape[0].a * 131u + tape[0].b) >> 8) % 8;
         if (o >= 4)
             vsim::set_now_ns((uint64_t)(1 + o) * 1000000000ull - before[o % 4] - 1);
     }
     x.c.trace("CFG capacity=%zu", cap);
     x.c.mix(cap);
     make_channel(x, cap);
-    if (n && tape[0].kind % K_COUNT == K_CFG) {
+    if (n) {
         // the origin of the lap counter is arbitrary too (nothing ever resets it): near 2^8, 2^16, 2^32 laps
-        static const size_t origins[4] = { 0, 250, 65530, 4294967290ull };
-        x.ch.cycle = origins[(tape[0].a >> 6) & 3];
+        static const size_t origins[8] = { 0, 0, 0, 250, 65530, 4294967290ull, 252, 65533 };
+        x.ch.cycle = origins[(unsigned)(vh_mix64(tape[0].a * 977u + tape[0].b + 5) >> 16) % 8];
         if (x.ch.cycle)
             x.c.trace("    (lap counter starts at %zu)", (size_t)x.ch.cycle);
     }
